@@ -116,6 +116,7 @@ retry_fetch_lv:
              * The entry was removed after its slot had been located. A remove clears the slot without
              * changing the node version, so the checks above cannot notice it: look the key up again.
              */
+            YAKUSHIMA_VERIF_HOOK(YAKUSHIMA_VERIF_RETRY, nullptr);
             goto retry_fetch_lv; // NOLINT
         }
         out = std::make_pair(v_body, value::get_len(vp));
